@@ -99,6 +99,26 @@ Theorem C03_monotone : forall T h q r i j, 1 <= T < 2 ^ 31 -> Height T = Z.of_na
 Proof. exact PathToIndex_mono. Qed.
 Print Assumptions C03_monotone.
 
+(** the same against the NUMERIC order of the path words (what AllPaths / Decode iterate over, C04):
+    the words of the stored nodes are strictly ascending in enumeration order, PathToIndex is strictly
+    monotone on them, and maps the ascending list of stored path words onto 0, 1, ..., T-1 *)
+Theorem C03_words_sorted : forall T h, (h <= 32)%nat -> StronglySorted Z.lt (map (enc h) (stored_nodes T h)).
+Proof. exact enc_stored_sorted. Qed.
+Print Assumptions C03_words_sorted.
+
+Theorem C03_monotone_word : forall T h q r i j, 1 <= T < 2 ^ 31 -> Height T = Z.of_nat h ->
+  (length q <= h)%nat -> (length r <= h)%nat -> stored T q = true -> stored T r = true ->
+  PathToIndex T (enc h q) = Some i -> PathToIndex T (enc h r) = Some j ->
+  (i < j <-> enc h q < enc h r).
+Proof. exact PathToIndex_mono_word. Qed.
+Print Assumptions C03_monotone_word.
+
+Theorem C03_enum : forall T h, 1 <= T < 2 ^ 31 -> Height T = Z.of_nat h ->
+  map (PathToIndex T) (map (enc h) (stored_nodes T h)) =
+  map (fun k => Some (Z.of_nat k)) (seq 0 (Z.to_nat T)).
+Proof. exact PathToIndex_enum. Qed.
+Print Assumptions C03_enum.
+
 (** the two closed forms agree with what the general branch would compute *)
 Theorem C03_closed_forms : forall T h q, 1 <= T < 2 ^ 31 -> Height T = Z.of_nat h -> (length q <= h)%nat ->
   (T = MaskUpto (Z.of_nat h) ->
@@ -159,7 +179,9 @@ Example C03_general_nonvacuous :
   PathToIndexLoose T (enc h [true; false]) = Some (46, 0) /\
   PathToIndex_debug T (enc h q) = Some 63 /\
   PathToIndex_debug T (enc h [true; false]) = None /\
-  nth 63 (stored_nodes T h) [] = q.
+  nth 63 (stored_nodes T h) [] = q /\
+  map (PathToIndex 5) (map (enc 2) (stored_nodes 5 2)) = [Some 0; Some 1; Some 2; Some 3; Some 4] /\
+  map (enc 2) (stored_nodes 5 2) = [0; 3; 0x100000003; 0x200000003; 0x300000003].
 Proof. cbv zeta. repeat apply conj; try (vm_compute; reflexivity); cbn [length]; lia. Qed.
 
 (** full tree of height 30, right-most leaf: the inner int32 addition of the closed form
